@@ -341,30 +341,44 @@ theorem runItems_import_inline (X X' : Nat → Except Err Env) (hXX : OkLe X' X)
 
 end
 
-/-- When the imports of a file precede its declarations, none of its own macros is shadowed in
-its package scope by an imported one (sufficient condition for `hOwn`). -/
+/-- the exports of a pass hold exported names only -/
+theorem lookup_expAdd_exported {m : Nat} {v : MacroVal} {e : Env}
+    (he : ∀ k w, lookup e k = some w → exported k = true) :
+    ∀ k w, lookup (expAdd m v e) k = some w → exported k = true := by
+  intro k w hw
+  cases hx : exported m with
+  | false => simp only [expAdd, hx] at hw; exact he k w hw
+  | true =>
+    simp only [expAdd, hx, if_true, lookup] at hw
+    by_cases hk : m = k
+    · rw [← hk]; exact hx
+    · simp only [hk, if_false] at hw; exact he k w hw
+
+/-- When the imports of a file precede its declarations, none of its own *exported* macros is
+shadowed in its package scope by an imported one (sufficient condition for `hOwn`). -/
 theorem own_of_importsFirst (X' : Nat → Except Err Env) (q : Nat) (qfmt : Format) :
     ∀ (items : List Item) (seen : Bool) (st r : ISt), importsFirst seen items = true →
       (seen = false → st.exp = []) →
+      (∀ m v, lookup st.exp m = some v → exported m = true) →
       (∀ m v, lookup st.exp m = some v → lookup st.loc m = some v) →
       foldE (passStep X' q qfmt) st items = .ok r →
       ∀ m v, lookup r.exp m = some v → lookup r.loc m = some v := by
   intro items
   induction items with
   | nil =>
-    intro seen st r _ _ h hf
+    intro seen st r _ _ _ h hf
     simp only [foldE] at hf
     cases hf
     exact h
   | cons it rest ih =>
-    intro seen st r hif hs h hf
+    intro seen st r hif hs hexpd h hf
     cases it with
     | atom a =>
       simp only [foldE, passStep] at hf
-      exact ih seen st r (by simpa [importsFirst] using hif) hs h hf
+      exact ih seen st r (by simpa [importsFirst] using hif) hs hexpd h hf
     | extends_ p =>
       simp only [foldE, passStep] at hf
-      exact ih seen st r (by simpa [importsFirst] using hif) hs h hf
+      exact ih seen st r (by simpa [importsFirst] using hif) hs hexpd h hf
     | import_ q' =>
       simp only [importsFirst, Bool.and_eq_true, Bool.not_eq_true'] at hif
       obtain ⟨hseen, hrest⟩ := hif
@@ -374,18 +388,30 @@ theorem own_of_importsFirst (X' : Nat → Except Err Env) (q : Nat) (qfmt : Form
       | ok ex =>
         rw [hx] at hf
         simp only at hf
-        refine ih seen ⟨ex ++ st.loc, st.exp⟩ r hrest hs ?_ hf
+        refine ih seen ⟨ex ++ st.loc, st.exp⟩ r hrest hs hexpd ?_ hf
         intro m v hv
         rw [hs hseen] at hv
         simp [lookup] at hv
     | macroDecl m fm ps body =>
       simp only [foldE, passStep] at hf
-      refine ih true _ r (by simpa [importsFirst] using hif) (by simp) ?_ hf
+      refine ih true _ r (by simpa [importsFirst] using hif) (by simp)
+        (lookup_expAdd_exported hexpd) ?_ hf
       intro k v hv
       simp only [lookup] at hv ⊢
-      by_cases hk : m = k
-      · simp only [hk, if_true] at hv ⊢; exact hv
-      · simp only [hk, if_false] at hv ⊢; exact h k v hv
+      cases he : exported m with
+      | true =>
+        simp only [expAdd, he, if_true, lookup] at hv
+        by_cases hk : m = k
+        · simp only [hk, if_true] at hv ⊢; exact hv
+        · simp only [hk, if_false] at hv ⊢; exact h k v hv
+      | false =>
+        simp only [expAdd, he] at hv
+        by_cases hk : m = k
+        · -- `k = m` is unexported, the exports hold exported names only
+          have := hexpd k v hv
+          rw [← hk, he] at this
+          cases this
+        · simp only [hk, if_false]; exact h k v hv
 
 /-- **extends = layout with the child's imports and macros in front.** A successful run of a file
 that extends `l` is the run of `inlineDecls child ++ layout's items` in the same file set; the
